@@ -23,6 +23,10 @@ PRELUDE_BYTES
   (ite ((_ is elem) r) (ebase r)
   (ite ((_ is fld) r) (ite ((_ is obj) (fbase r)) (oid (fbase r)) (ite ((_ is elem) (fbase r)) (ebase (fbase r)) (- 1)))
   (- 1)))))
+(define-fun rootidx ((r Ref)) Int
+  (ite ((_ is elem) r) (eidx r)
+  (ite ((_ is fld) r) (ite ((_ is elem) (fbase r)) (eidx (fbase r)) (- 1))
+  (- 1))))
 (define-fun wrap64 ((x Int)) Int (- (mod (+ x 9223372036854775808) 18446744073709551616) 9223372036854775808))
 (define-fun wrap32 ((x Int)) Int (- (mod (+ x 2147483648) 4294967296) 2147483648))
 (define-fun wrap16 ((x Int)) Int (- (mod (+ x 32768) 65536) 32768))
